@@ -1070,6 +1070,14 @@ func BinaryExpr(query *Query, current Map, expr *sqlparser.BinaryExpr, opts ...E
 	if err != nil {
 		return nil, err
 	}
+	// a division by zero is NULL, as in MySQL: +Inf and NaN have no place in
+	// a result that is JSON data (and the integer division would panic)
+	if *rightValue == 0 {
+		switch expr.Operator {
+		case sqlparser.DivOp, sqlparser.IntDivOp, sqlparser.ModOp:
+			return nil, nil
+		}
+	}
 	switch expr.Operator {
 	case sqlparser.PlusOp:
 		{
